@@ -16,9 +16,9 @@ PROPS = {
                 "a case is distinct by the hash of its request+answer lines and non-trivial if at least one allocation succeeded; second stream (region level): whole-database "
                 "histories with 64 KiB regions that grow over several regions, free, shrink (compaction / close) and grow again; after every step the allocator state and the "
                 "region tracker are read through the snapshot hook: a region with a free block is never reported full, a region that does not exist is never offered, exact page accounting",
-        "trusted_base": BASE_TRUST + ["modelled, not verified: buddy_allocator.rs, bitmap.rs (leaf level exact; 64-way summary levels only through to_vec bytes)"],
+        "trusted_base": BASE_TRUST + ["modelled, not verified: buddy_allocator.rs, bitmap.rs (leaf level exact; 64-way summary levels only through to_vec bytes), region.rs and its use by page_manager.rs (allocate retry loop, free, resize_to, grow, try_shrink, load) as Model/Region.lean; the region model is tied to the code at state level (decoded snapshots satisfy TrackerSound), not operation by operation"],
         "assumptions": ["client contract of the allocator: free() only for blocks handed out and not yet freed; resize never below a live block"],
-        "explanation": "Lean theorems (invariant preservation, alloc soundness/completeness, free/record_alloc specs) about the model; "
+        "explanation": "Lean theorems (invariant preservation, alloc soundness/completeness, free/record_alloc specs; region level: TrackerSound in every reachable state, cross-region allocation complete and sound, freed space reusable; counter-examples for the two seeded defect shapes) about the model; region-level correspondence: `rg state` lines (serialized tracker + allocators of every state of the c14 histories) decoded and judged by the proven-exact checker firstViolation; "
                        "model == implementation checked op by op incl. serialized bytes; property predicate also evaluated on the implementation alone",
     },
     "C15": {
